@@ -50,7 +50,8 @@ RULE = ("random histories drawn from ctx.rng: ticks_per_beat in {1..960}; automa
         "fractions 0, 1, 1/2, k/16, <1/D and p/q; interrupted and concurrent moves, jump_to; LFOs over frequency / "
         "min / max sweeps read on every tick and through PLFO.  Executed on the real Timeline and on the Lean model, "
         "traces diffed (rel. tol. 1e-9; tick counts, modulation counts, sink writes exact).  Non-trivial = a move over "
-        "a non-zero distance was observed through its arrival tick, or an LFO with min != max ran for >= 2 ticks")
+        "a non-zero distance was observed through its arrival tick, or an LFO with min != max ran for >= 2 ticks"
+        " Also (implementation-only oracles): LFOs retuned while running; LFOs created through every documented argument of Timeline.lfo() on ranges excluding 0 (range and pattern reading on every tick); moves requested from inside a bound method when the previous target arrives.")
 ASSUMPTIONS = [
     "durations are rationals p/q (q <= 13 or q = tpb): duration*tpb is whole or >= 1e-3 away from a whole number, so "
     "round(x, 8) before ceil (fix 02) cannot change an off-grid tick count",
